@@ -38,6 +38,7 @@ func main() {
 			fmt.Printf("alias %s ok:%s:%d:%d\n", n, info.Name, len(info.SyscallNames), len(info.SyscallNumbers))
 		}
 	}
+	printPrograms()
 	if runtime.GOOS != "linux" {
 		fmt.Printf("supported %v\n", seccomp.Supported())
 	}
